@@ -124,7 +124,7 @@ static double extent_of_denot(const Denot& d) { return extent_of(d.cloud()); }
 struct QCtx { const CaseId* c; const char* object; std::string stage; };
 static void report(const QCtx& x, const std::string& query, const std::string& cls, const JFields& qtags, const std::string& detail, const std::string& extra_replay) {
     const CaseId& c = *x.c;
-    auto rotcls = [](int r) { return r == 0 ? "zero" : r < 4 ? "multiple_of_90" : "oblique"; };
+    auto rotcls = [](int r) { return r == 0 ? "zero" : (r < 4 || r == 6) ? "multiple_of_90" : "oblique"; };
     JFields tags = {{"query", jstr(query)}, {"object", jstr(x.object)}, {"leaf", jstr(leaf_name(c.leaf))}, {"stage", jstr(x.stage)},
                     {"r1_rot", jstr(rotcls(c.s1.rot))}, {"r2_rot", jstr(rotcls(c.s2.rot))}, {"r1_refl", jbool(c.s1.refl)}, {"r2_refl", jbool(c.s2.refl)},
                     {"r1_mag", jnum(MAGS[c.s1.mag])}, {"r2_mag", jnum(MAGS[c.s2.mag])}, {"r1_rep", jstr(rep_name(c.s1.rep))}, {"r2_rep", jstr(rep_name(c.s2.rep))}};
@@ -335,7 +335,8 @@ int main(int argc, char** argv) {
     }
     const int leaves[] = {L_SQUARE, L_TRIANGLE, L_LABEL2, L_EMPTY, L_FLEX, L_ROBUST, L_POLY_RECT, L_POLY_REGULAR, L_POLY_EXPLICIT, L_POLY_EXPLICIT_X, L_POLY_EXPLICIT_Y, L_LABEL_EXPLICIT, L_MIXED, L_POLY_REG_1COL, L_LABEL_REG_1ROW, L_FLEX_BEND};
     std::vector<RefSpec> specs;
-    for (int rot = 0; rot < NROT; rot++) for (int refl = 0; refl < 2; refl++) for (int mag = 0; mag < 2; mag++) for (int org = 0; org < 2; org++) for (int rep = 0; rep < NREP; rep++) {
+    for (int rot = 0; rot < NROT_NEG; rot++) for (int refl = 0; refl < 2; refl++) for (int mag = 0; mag < 2; mag++) for (int org = 0; org < 2; org++) for (int rep = 0; rep < NREP; rep++) {
+        if (rot >= NROT && (mag || org)) continue;                    // rotation -pi/2: origin (0,0), magnification 1
         if (!T) {
             if (rot == 2 || rot == 3 || rot == 5) continue;            // quick: rotations {0, pi/2, 0.5}
             if (mag != (org ? 1 : 0)) continue;                       // magnification tied to origin
